@@ -34,6 +34,8 @@ type hostileReq struct {
 	Now int64 `json:"now,omitempty"`
 	// http targets: Content-Length the hostile server announces (0 = the true length)
 	Claim int64 `json:"claim,omitempty"`
+	// http targets: status of the reply (0 = 200)
+	Status int `json:"status,omitempty"`
 }
 
 type hostileResp struct {
@@ -62,6 +64,7 @@ var (
 	hostilePayloadMu sync.Mutex
 	hostilePayload   []byte
 	hostileClaim     int64
+	hostileStatus    int
 	hostileServer    *httptest.Server
 )
 
@@ -71,7 +74,14 @@ func hostileURL() string {
 			hostilePayloadMu.Lock()
 			p := hostilePayload
 			claim := hostileClaim
+			status := hostileStatus
 			hostilePayloadMu.Unlock()
+			if status != 0 && claim == 0 {
+				w.Header().Set("Content-Type", "application/octet-stream")
+				w.WriteHeader(status)
+				w.Write(p)
+				return
+			}
 			if claim != 0 {
 				body := p
 				if r.URL.Path == "/items" || r.URL.Path == "/files" {
@@ -292,6 +302,7 @@ func execHostile(req hostileReq, dir string) (resp hostileResp) {
 		hostilePayloadMu.Lock()
 		hostilePayload = req.Data
 		hostileClaim = req.Claim
+		hostileStatus = req.Status
 		hostilePayloadMu.Unlock()
 		var c cmd.Command
 		switch req.Target {
